@@ -136,6 +136,50 @@ fn c09_advance_to_from_late_positions() {
   advance_case(3);
 }
 
+/// Same contract on a posting list that carries stored block metadata (what a segment
+/// file holds: last doc id and max tf of every `stored_block` postings) - any use the
+/// cursor makes of that skip data must not change where advance_to lands.
+fn advance_case_stored(start: usize, stored_block: usize) {
+  let (d, tf, entries) = any_postings4();
+  let target: DocId = kani::any();
+  let mut st = TermState::new(
+    ScoredTerm {
+      postings: reader_with_stored_blocks(entries, max4(&tf) as f32, stored_block),
+      weight: 1.0,
+      avgdl: 8.0,
+      docs: 10.0,
+      k1: 0.9,
+      b: 0.4,
+      leaf: 0,
+      doc_lengths: None,
+    },
+    128,
+  );
+  st.idx = start;
+  let moved = st.advance_to(target);
+  let want = if d[start] >= target { start } else { first_at_or_after(&d, start, target) };
+  assert!(st.idx == want, "C09: advance_to does not land on the first posting at or after the target (posting list with stored block metadata)");
+  assert!(moved == want - start, "C09: advance_to reports a wrong number of skipped postings (posting list with stored block metadata)");
+  kani::cover!(want == 2 && start == 0, "landed on the first posting of the second stored block");
+  std::mem::forget(st);
+}
+
+//@ props: C09
+//@ tier: quick
+//@ funcs: query::wand::TermState::advance_to, TermState::new, build_block_meta, index::postings::PostingsReader (stored block metadata)
+//@ symbolic: 4 postings (increasing doc ids, tf 1..3) stored with block metadata for blocks of 1 and of 2 postings; the target doc id (any u32); start positions 0 and 1; runtime block size 128 (the default, different from the stored one)
+//@ bounds: 4 postings, stored block sizes 1 and 2, start positions 0 and 1
+//@ oracle: as c09_advance_to_lands_on_first_geq - a posting >= target is never skipped, in particular not the first posting of a later stored block
+//@ assumes: bm25 replaced by a monotone surrogate
+#[kani::proof]
+#[kani::unwind(7)]
+#[kani::stub(crate::query::bm25::bm25, bm25_surrogate)]
+fn c09_advance_to_with_stored_blocks() {
+  advance_case_stored(0, 2);
+  advance_case_stored(1, 2);
+  advance_case_stored(0, 1);
+}
+
 fn skip_case(block: usize) {
   let (d, tf, entries) = any_postings4();
   let target: DocId = kani::any();
